@@ -167,3 +167,68 @@ Proof.
     intros y x Hy Hx. rewrite (PASS en' He y x Hy Hx).
     apply on_line_ext. intros k Hk. fold L in Hk. rewrite HLlen in Hk. apply (Hag k Hk).
 Qed.
+
+(* ------------------------------------------------------------------------------------------------------ *)
+(* the same two statements for every pair of integers (H, W) - error points of the native route            *)
+
+(* grid_frame = BoolGridFrame(solver, H, W); solver.add_answer_key(grid_frame);
+   graph.active_edges_single_cycle(solver, grid_frame)            with use_graph_primitive on, H, W any integers:
+   * H, W >= 0: frame_cycle_prim;
+   * exactly one of them negative: one of the shape products (H + 1) * W, H * (W + 1) is negative and
+     Array2D.__init__ raises ValueError while the frame is declared;
+   * both negative: both products are >= 0, the frame gets (H + 1) * W + H * (W + 1) variables (all of them answer
+     keys), _from_grid_frame runs through empty loops and returns no edge flags and the graph with
+     (H + 1) * (W + 1) >= 0 isolated vertices, on which the native route - unlike the auxiliary-variable route,
+     whose int_array(n, 0, n - 1) raises ValueError for n = 0 - posts its program (one degree constraint per
+     vertex, the native node over the empty line graph).  The array handed back has the shape (H + 1, W + 1) with
+     non-positive entries: every index into it raises IndexError; the value modelled here (P2 0 0) is only
+     meaningful to callers that ignore the array.  The plug-in problems of the tie only contain such boards with
+     H = -1 or W = -1 (no vertex: the program is the single node G_AVC 0 0). *)
+Definition frame_cycle_prim_z (H W : Z) : res (state * passed_result) :=
+  if ((0 <=? H) && (0 <=? W))%Z then frame_cycle_prim (Z.to_nat H) (Z.to_nat W)
+  else if ((H <? 0) && (W <? 0))%Z then
+    match post_cycle (bool_grid_state (Z.to_nat ((H + 1) * W + H * (W + 1))) []) []
+                     {| nv := Z.to_nat ((H + 1) * (W + 1)); edges := [] |} true with
+    | Ok (st', p) => Ok (st', P2 0 0 p)
+    | Err e => Err e
+    end
+  else Err ValueError.
+
+Lemma frame_cycle_prim_z_nat h w : frame_cycle_prim_z (Z.of_nat h) (Z.of_nat w) = frame_cycle_prim h w.
+Proof.
+  unfold frame_cycle_prim_z.
+  replace (0 <=? Z.of_nat h)%Z with true by (symmetry; apply Z.leb_le; lia).
+  replace (0 <=? Z.of_nat w)%Z with true by (symmetry; apply Z.leb_le; lia).
+  cbn [andb]. rewrite !Nat2Z.id. reflexivity.
+Qed.
+
+(* the frame with no point at all (H = W = -1): no variable, the program is the native node over the empty graph,
+   which holds *)
+Definition empty_avc_state : state := {| vars := []; keys := []; cons := [BNode G_AVC [PyInt 0; PyInt 0]] |}.
+
+Lemma frame_cycle_prim_z_empty : frame_cycle_prim_z (-1) (-1) = Ok (empty_avc_state, P2 0 0 []).
+Proof. reflexivity. Qed.
+
+Lemma empty_avc_models (extra : list expr) ans :
+  extra = [] ->
+  ((exists en, model_of gsem_c06 en (ensure empty_avc_state extra) /\
+               reads (ensure empty_avc_state extra) en (seq 0 0) = ans) <-> ans = []).
+Proof.
+  intros ->. split.
+  - intros [en [_ Hr]]. symmetry. exact Hr.
+  - intros ->. exists {| eb := fun _ => false; ei := fun _ => 0%Z |}. split; [|reflexivity].
+    unfold model_of. split; vm_compute; reflexivity.
+Qed.
+
+Lemma frame_cycle_prim_z_one_neg H W :
+  ((H < 0 /\ 0 <= W) \/ (W < 0 /\ 0 <= H))%Z -> frame_cycle_prim_z H W = Err ValueError.
+Proof.
+  intros Hc. unfold frame_cycle_prim_z.
+  destruct Hc as [[A B]|[A B]].
+  - replace (0 <=? H)%Z with false by (symmetry; apply Z.leb_gt; lia).
+    replace (W <? 0)%Z with false by (symmetry; apply Z.ltb_ge; lia).
+    cbn [andb]. rewrite andb_false_r. reflexivity.
+  - replace (0 <=? W)%Z with false by (symmetry; apply Z.leb_gt; lia).
+    replace (H <? 0)%Z with false by (symmetry; apply Z.ltb_ge; lia).
+    rewrite andb_false_r. reflexivity.
+Qed.
